@@ -981,9 +981,12 @@ def _stack_push(e: ast.AST) -> Optional[ast.Name]:
     """`call_stack + [P]` -> P"""
     if isinstance(e, ast.BinOp) and isinstance(e.op, ast.Add):
         l, r = e.left, e.right
-        if isinstance(l, ast.Name) and isinstance(r, ast.List) and len(r.elts) == 1 and isinstance(r.elts[0], ast.Name):
+        def _stack(x: ast.AST) -> bool:
+            # the stack: a local / parameter, or the attribute that holds it (`self._call_stack`)
+            return isinstance(x, ast.Name) or (isinstance(x, ast.Attribute) and isinstance(x.value, ast.Name) and x.value.id in ("self", "cls"))
+        if _stack(l) and isinstance(r, ast.List) and len(r.elts) == 1 and isinstance(r.elts[0], ast.Name):
             return r.elts[0]
-        if isinstance(r, ast.Name) and isinstance(l, ast.List) and len(l.elts) == 1 and isinstance(l.elts[0], ast.Name):
+        if _stack(r) and isinstance(l, ast.List) and len(l.elts) == 1 and isinstance(l.elts[0], ast.Name):
             return l.elts[0]
     return None
 
